@@ -1,5 +1,7 @@
 ID = 'C14'
-UNITS = {'fs': dict(wrap='wrap.cc', new_block=64)}
+UNITS = {'fs': dict(wrap='wrap.cc', new_block=64, per_harness={'h_readall.c': {'new_block': 16400}}),
+         # same TU; the cannot_open_file(const string&) constructor (what() text concatenation only) is an external no-op
+         'fsx': dict(wrap='wrap.cc', new_block=64, cuts=[r'^_ZN5phosg16cannot_open_fileC1ERKNSt7__cxx1112basic_string'])}
 BOUNDS = ''
 STUBS = []
 OUTSIDE = []
@@ -27,7 +29,11 @@ def queries(tier):
                        desc='Poll: every history of %d add/remove operations over fds {3,4,5}, symbolic event masks, vs a map model; poll_fds sorted and duplicate-free after every operation' % n,
                        bounds='%d operations, 3 descriptors' % n))
     for n in ([1, 2, 3] if tier == 'quick' else [1, 2, 3, 4]):
-        qs.append(dict(name='sfd_ops%d' % n, unit='fs', harness='h_sfd.c', defs={'NOPS': n}, unwind=40, timeout=900, mem_gb=8, flags=FS0,
+        qs.append(dict(name='sfd_ops%d' % n, unit='fsx', harness='h_sfd.c', defs={'NOPS': n}, unwind=40, timeout=900, mem_gb=8, flags=FS0,
                        desc='scoped_fd: every sequence of %d operations (10 kinds, 2 objects, open may fail) vs an ownership model; every descriptor handed out is closed exactly once' % n,
                        bounds='%d operations, 2 objects' % n))
+    for S in ([0, 1, 2, 3] if tier == 'quick' else [0, 1, 2, 3, 4, 5, 6]):
+        qs.append(dict(name='readall_fd_len%d' % S, unit='fs', harness='h_readall.c', defs={'S': S}, unwind=S + 20, timeout=900, mem_gb=10, flags=FS0,
+                       desc='read_all(fd) over a %d-byte symbolic source delivered in every possible chunking (each read returns 1..remaining bytes, then 0), optional read fault: result == source or io_error' % S,
+                       bounds='source length == %d; <= %d read calls' % (S, S + 2)))
     return qs
